@@ -17,37 +17,37 @@ from latcfg import frac
 DEN = 4096
 
 
-def make_layer(tf, tfl, c):
+def make_layer(tf, tfl, c, units=1):
   k = c["kind"]
   if k == "lattice":
     cc = dict(c)
     cc.update({"iters": 1, "strict": True})
-    layer = latcfg.make_layer(tfl, cc, 1)
+    layer = latcfg.make_layer(tfl, cc, units)
     return layer, [layer.kernel]
   if k == "pwl":
     layer = tfl.layers.PWLCalibration(
-        input_keypoints=[float(i) for i in range(c["n"])], units=1, monotonicity=c["mono"],
+        input_keypoints=[float(i) for i in range(c["n"])], units=units, monotonicity=c["mono"],
         output_min=float(frac(c["omin"])) if c["hasMin"] else None, output_max=float(frac(c["omax"])) if c["hasMax"] else None,
         clamp_min=c["clampMin"], clamp_max=c["clampMax"])
-    layer.build((None, 1))
+    layer.build((None, units))
     return layer, [layer.kernel]
   if k == "linear":
     n = len(c["mono"])
     z = lambda ps: [(p[0] - 1, p[1] - 1) for p in ps] or None
     use_b = bool(c["rdom"])
-    layer = tfl.layers.Linear(num_input_dims=n, units=1, monotonicities=list(c["mono"]), monotonic_dominances=z(c["mdom"]),
+    layer = tfl.layers.Linear(num_input_dims=n, units=units, monotonicities=list(c["mono"]), monotonic_dominances=z(c["mdom"]),
                               range_dominances=z(c["rdom"]), input_min=[0.0] * n if use_b else None,
                               input_max=[float(frac(r)) for r in c["range"]] if use_b else None,
                               normalization_order=c["norm"] or None, use_bias=False)
-    layer.build((None, n))
+    layer.build((None, n) if units == 1 else (None, units, n))
     return layer, [layer.kernel]
   if k == "cat":
     layer = tfl.layers.CategoricalCalibration(
-        num_buckets=c["nb"], units=1, monotonicities=[(p[0] - 1, p[1] - 1) for p in c["pairs"]] or None,
+        num_buckets=c["nb"], units=units, monotonicities=[(p[0] - 1, p[1] - 1) for p in c["pairs"]] or None,
         output_min=float(frac(c["omin"])) if c["hasMin"] else None, output_max=float(frac(c["omax"])) if c["hasMax"] else None)
-    layer.build((None, 1))
+    layer.build((None, units))
     return layer, [layer.kernel]
-  layer = c07.make_layer(tfl, c, 1)
+  layer = c07.make_layer(tfl, c, units)
   return layer, [layer.kernel, layer.scale]
 
 
@@ -59,6 +59,17 @@ def assign(c, layer, w):
     layer.scale.assign(w[nk:].reshape(1, c["terms"]))
   else:
     layer.kernel.assign(w.reshape(layer.kernel.shape))
+
+
+def assign_multi(c, layer, ws):
+  """ws: one weight vector per unit."""
+  W = np.asarray(ws, dtype=np.float32)                  # (units, n)
+  if c["kind"] == "kfl":
+    nk = c["L"] * c["dims"] * c["terms"]
+    layer.kernel.assign(c07.to_var(c, W[:, :nk].reshape(len(ws), c["L"], c["dims"], c["terms"])))
+    layer.scale.assign(W[:, nk:].reshape(len(ws), c["terms"]))
+  else:
+    layer.kernel.assign(W.T.reshape(layer.kernel.shape))
 
 
 def outcome(tf, layer, eps):
@@ -82,6 +93,7 @@ def run(ctx):
   rng = np.random.default_rng(ctx.seed + 1212)
   epss = [Fraction(1, 1000)] if ctx.quick else [Fraction(1, 10 ** 6), Fraction(1, 1000), Fraction(1, 4)]
   events = []
+  multi = {}
   nb = 6 if ctx.quick else 40
   for cf in files:
     c = cf["cfg"]
@@ -114,6 +126,34 @@ def run(ctx):
           events.append({"ev": "Assert", "cfg": c, "den": den, "w": [int(round(x * den)) for x in v],
                          "eps": [eps.numerator, eps.denominator], "outcome": oc, "site": site,
                          "call": {"cfg": c, "w": v.tolist(), "eps": float(eps)}})
+        # "whichever unit is the offender": the same vectors as units of one multi-unit layer, the changed vector in
+        # every position next to untouched base vectors (the oracle is applied per unit)
+        for units in (2, 3):
+          key = (json.dumps(c, sort_keys=True), units)
+          if key not in multi:
+            try:
+              multi[key] = make_layer(tf, tfl, c, units)[0]
+            except Exception as ex:  # pylint: disable=broad-except
+              multi[key] = None
+              ctx.notes.append("multi-unit layer not built for %s: %r" % (c["kind"], ex))
+          lay = multi[key]
+          if lay is None:
+            continue
+          for vi in rng.choice(len(variants), size=min(6 if ctx.quick else 16, len(variants)), replace=False):
+            pos = int(rng.integers(0, units))
+            ws = [base] * units
+            ws[pos] = variants[int(vi)]
+            try:
+              assign_multi(c, lay, ws)
+              oc = outcome(tf, lay, float(eps))
+            except Exception as ex:  # pylint: disable=broad-except
+              events.append({"ev": "Raised", "cfg": c, "site": site, "exc": repr(ex)[:200], "call": {"cfg": c, "ws": [w.tolist() for w in ws]}})
+              continue
+            den = 10 ** 6 if eps < Fraction(1, 1000) else 4000
+            events.append({"ev": "AssertMulti", "cfg": c, "den": den, "ws": [[int(round(x * den)) for x in w] for w in ws],
+                           "eps": [eps.numerator, eps.denominator], "outcome": oc, "site": site,
+                           "call": {"cfg": c, "ws": [w.tolist() for w in ws], "eps": float(eps)}})
+            ctx.count(1)
         ctx.count(len(variants), nontrivial_key=(json.dumps(c, sort_keys=True), int(bi), str(eps)))
   log("  %d assert_constraints calls" % len(events))
   ctx.sample({k: events[len(events) // 2].get(k) for k in ("cfg", "w", "den", "eps", "outcome")})
@@ -153,8 +193,12 @@ def replay(ctx, path):
     if call.get("rtl"):
       continue
     c = call["cfg"]
-    layer, _ = make_layer(tf, tfl, c)
-    assign(c, layer, call["w"])
+    if "ws" in call:
+      layer, _ = make_layer(tf, tfl, c, len(call["ws"]))
+      assign_multi(c, layer, [np.array(w) for w in call["ws"]])
+    else:
+      layer, _ = make_layer(tf, tfl, c)
+      assign(c, layer, call["w"])
     oc = outcome(tf, layer, call["eps"])
     log("replay cfg=%s w=%s eps=%s -> %s" % (c, call["w"], call["eps"], oc))
     e2 = dict(ev)
